@@ -20,8 +20,9 @@ const (
 type ConfWatcher struct {
 	FilePath string
 
-	inner        *fsnotify.Watcher
-	absolutePath string
+	inner              *fsnotify.Watcher
+	absolutePath       string
+	initialWatchedPath string
 
 	// in
 	terminate chan struct{}
@@ -53,6 +54,10 @@ func (w *ConfWatcher) Initialize() error {
 		return err
 	}
 
+	// resolve the path here and not in run(), in order to detect
+	// changes that happen right after Initialize() has returned.
+	w.initialWatchedPath, _ = filepath.EvalSymlinks(w.absolutePath)
+
 	w.terminate = make(chan struct{})
 	w.signal = make(chan struct{})
 	w.done = make(chan struct{})
@@ -72,7 +77,7 @@ func (w *ConfWatcher) run() {
 	defer close(w.done)
 
 	var lastCalled time.Time
-	previousWatchedPath, _ := filepath.EvalSymlinks(w.absolutePath)
+	previousWatchedPath := w.initialWatchedPath
 
 	// a change that happens less than minInterval after a notification
 	// is notified as soon as the interval has elapsed, in order not to lose it.
